@@ -141,6 +141,34 @@ let prune_table (tbl : table) : table * int =
   and g = List.filter (fun ((s, _), _) -> keep s) tbl.t_goto in
   ({ t_action = a; t_goto = g }, List.length tbl.t_action - List.length a)
 
+(* label inference with arrays (untrusted helper: [table_ok] re-checks the labels): longest common
+   suffix of the symbol strings reaching a state, propagated from state 0 until nothing changes *)
+let infer_labels_fast (n : int) (tbl : table) : sym list list =
+  let lab : sym list option array = Array.make (Stdlib.max n 1) None in   (* labels stored reversed: last symbol first *)
+  lab.(0) <- Some [];
+  let edges =
+    List.filter_map (fun ((s, a), x) -> match a, x with
+      | Some c, Shift t -> Some (int_of_z s, Tm c, int_of_z t) | _ -> None) tbl.t_action
+    @ List.map (fun ((s, a), t) -> (int_of_z s, Nt a, int_of_z t)) tbl.t_goto in
+  let rec common u v = match u, v with
+    | x :: u', y :: v' when x = y -> x :: common u' v'
+    | _ -> [] in
+  let changed = ref true and rounds = ref 0 in
+  while !changed && !rounds < 10000 do
+    changed := false; incr rounds;
+    List.iter (fun (s, x, t) ->
+      if s >= 0 && s < n && t >= 0 && t < n then
+        match lab.(s) with
+        | Some ls ->
+          let cand = x :: ls in
+          (match lab.(t) with
+           | None -> lab.(t) <- Some cand; changed := true
+           | Some lt -> let c = common lt cand in
+             if List.length c <> List.length lt then (lab.(t) <- Some c; changed := true))
+        | None -> ()) edges
+  done;
+  Array.to_list (Array.map (function Some l -> List.rev l | None -> []) (Array.sub lab 0 (Stdlib.max n 0)))
+
 let slr_fuel = nat_of_int 200
 let big_fuel = nat_of_int 20000
 let sim_fuel = nat_of_int 400
@@ -149,6 +177,7 @@ let lang_fuel = nat_of_int 4000
 let () =
   let cases = ref 0 and ops = ref 0 and lineno = ref 0 and samples = ref 0 in
   let nontrivial = Hashtbl.create 1024 in
+  let bump_names = ref false in
   let oracle_cache : (string, nat list list option) Hashtbl.t = Hashtbl.create 16 in
   let st = Hashtbl.create 16 in
   let bump k d = Hashtbl.replace st k (d + try Hashtbl.find st k with Not_found -> 0) in
@@ -168,8 +197,12 @@ let () =
           List.map (fun ps -> match String.index_opt ps ':' with
             | Some 1 -> prod_of ps.[0] (String.sub ps 2 (String.length ps - 2))
             | _ -> failwith ("bad production " ^ ps)) (split_on hf.(4) ",") in
-        let prec = ref "" in
-        Array.iteri (fun i x -> if i >= 5 && starts_with x "prec=" then prec := String.sub x 5 (String.length x - 5)) hf;
+        let prec = ref "" and nomodel = ref false in
+        Array.iteri (fun i x -> if i >= 5 && starts_with x "prec=" then prec := String.sub x 5 (String.length x - 5);
+                                if i >= 5 && x = "nomodel" then nomodel := true;
+                                if i >= 5 && starts_with x "names=" then bump_names := true) hf;
+        if !bump_names then (bump_names := false; bump "cases_with_renamed_symbols" 1);
+        if !nomodel then bump "cases_without_model_constructions" 1;
         let g : gram = { terms = toks_of_string terms; nonterms = List.map (fun c -> nat_of_int (Char.code c - 65)) (List.init (String.length nts) (String.get nts));
                          prods = prods; start = nat_of_int (Char.code start - 65) } in
         (* property-level (api) mismatches of a case are printed before fidelity ones *)
@@ -200,7 +233,8 @@ let () =
           if !okf && !ops <> [] then Some (List.rev !ops) else None in
         let opn c = nat_of_int (Char.code c - 97) in
         (* fuel hypothesis of the chain theorem C11_chain: the modelled FOLLOW iteration reached its fixpoint *)
-        if follow_fix_ok (augment g) then bump "follow_fixpoint_reached" 1
+        if !nomodel then ()
+        else if follow_fix_ok (augment g) then bump "follow_fixpoint_reached" 1
         else Printf.printf "MISMATCH line=%d op=1 kind=fidelity what=model: the FOLLOW iteration of the modelled SLR construction ran out of fuel before its fixpoint (hypothesis follow_fix_ok of C11_chain fails for this grammar)\n" !lineno;
         let oracle = lazy (
           let key = hf.(1) ^ " " ^ hf.(4) ^ " " ^ string_of_int maxlen in
@@ -223,7 +257,7 @@ let () =
             let kind = List.hd rt in
             Hashtbl.replace status m (kind, !opno);
             (* the modelled SLR construction (LR(0) automaton, FOLLOW, ResolveConflicts) against the Go one *)
-            if kind <> "INVALID" then begin
+            if kind <> "INVALID" && not !nomodel then begin
               let mres = match m with
                 | "slr" -> build_slr slr_fuel g levels
                 | "lalr" -> build_lalr slr_fuel g levels
@@ -288,7 +322,7 @@ let () =
                    mism !opno "api" (Printf.sprintf "%s construction succeeded but the table has %d cells with several actions" m pt.raw_conflicts)
                  else begin
                    Hashtbl.replace tables m pt;
-                   let lbl = infer_labels (nat_of_int pt.n) tbl in
+                   let lbl = infer_labels_fast pt.n tbl in
                    if not (table_ok g tbl lbl) then
                      mism !opno "api" (Printf.sprintf "%s table fails the certificate table_ok (a state is entered with a stack that does not end with the body of one of its reductions, or accept is misplaced)" m)
                    else if not (term_ok sim_fuel tbl) then
